@@ -77,6 +77,12 @@ def run_unit(unit, progress):
         cs = tl.case_seed(unit["seed"], ID, i)
         prof = PROFILES[i % 4]
         prog = gen.generate(cs, prof)
+        if i % 8 == 5:
+            # a task reached twice in one traversal, found waiting the first time, unblocked in between by a
+            # sibling's item.value(): it must go on (and join the pending batches) before anything is flushed
+            prog = gen.revisit_program(random.Random(cs ^ 0x7E715))
+            prof = dict(prof, kinds=2)
+            inc("revisit_programs")
         rnd = random.Random(cs ^ 0xC04)
         try:
             exp_rrt = ref.evaluate(prog)
